@@ -1,6 +1,7 @@
 package types
 
 import (
+	"bytes"
 	"encoding/binary"
 	"errors"
 	"fmt"
@@ -1823,12 +1824,19 @@ func (s *ServicesStatistics) Decode(d *Decoder) error {
 
 	// make the map
 	services := make(ServicesStatistics)
+	var prevID ServiceID
 
 	for i := uint64(0); i < length; i++ {
 		var serviceID ServiceID
 		if err = serviceID.Decode(d); err != nil {
 			return err
 		}
+
+		// dictionary keys are strictly ascending
+		if i > 0 && serviceID <= prevID {
+			return errors.New("ServicesStatistics keys are not strictly ascending")
+		}
+		prevID = serviceID
 
 		var serviceActivityRecord ServiceActivityRecord
 		if err = serviceActivityRecord.Decode(d); err != nil {
@@ -2665,11 +2673,17 @@ func (a *AlwaysAccumulateMap) Decode(d *Decoder) error {
 	// make the map with length
 	*a = make(AlwaysAccumulateMap, length)
 
+	var prevKey ServiceID
 	for i := uint64(0); i < length; i++ {
 		var key ServiceID
 		if err = key.Decode(d); err != nil {
 			return err
 		}
+		// dictionary keys are strictly ascending
+		if i > 0 && key <= prevKey {
+			return errors.New("AlwaysAccumulateMap keys are not strictly ascending")
+		}
+		prevKey = key
 
 		var val Gas
 		if err = val.Decode(d); err != nil {
@@ -2769,11 +2783,20 @@ func (l *LookupMetaMapEntry) Decode(d *Decoder) error {
 
 	// Init the map
 	*l = make(LookupMetaMapEntry, length)
+	var prevKey LookupMetaMapkey
 	for i := uint64(0); i < length; i++ {
 		var key LookupMetaMapkey
 		if err = key.Decode(d); err != nil {
 			return err
 		}
+		// dictionary keys are strictly ascending (hash, then length)
+		if i > 0 {
+			c := bytes.Compare(prevKey.Hash[:], key.Hash[:])
+			if c > 0 || (c == 0 && prevKey.Length >= key.Length) {
+				return errors.New("LookupMetaMapEntry keys are not strictly ascending")
+			}
+		}
+		prevKey = key
 
 		timeSlotSetSize, err := d.DecodeLength()
 		if err != nil {
@@ -2815,11 +2838,17 @@ func (p *PreimagesMapEntry) Decode(d *Decoder) error {
 	// Init the map
 	*p = make(PreimagesMapEntry, length)
 
+	var prevKey OpaqueHash
 	for i := uint64(0); i < length; i++ {
 		var key OpaqueHash
 		if err = key.Decode(d); err != nil {
 			return err
 		}
+		// dictionary keys are strictly ascending
+		if i > 0 && bytes.Compare(prevKey[:], key[:]) >= 0 {
+			return errors.New("PreimagesMapEntry keys are not strictly ascending")
+		}
+		prevKey = key
 
 		var val ByteSequence
 		if err = val.Decode(d); err != nil {
@@ -2848,6 +2877,7 @@ func (s *Storage) Decode(d *Decoder) error {
 
 	// Init the map
 	*s = make(Storage, length)
+	var prevKey string
 	for i := uint64(0); i < length; i++ {
 		// Decode the of the key
 		// INFO: we want to read the vectors from jamtestnet, so we follow the same
@@ -2867,6 +2897,11 @@ func (s *Storage) Decode(d *Decoder) error {
 			return errors.New("Storage key length prefixes disagree")
 		}
 		str := string(key)
+		// dictionary keys are strictly ascending
+		if i > 0 && str <= prevKey {
+			return errors.New("Storage keys are not strictly ascending")
+		}
+		prevKey = str
 
 		var val ByteSequence
 		if err = val.Decode(d); err != nil {
@@ -2919,12 +2954,18 @@ func (a *ServiceAccountState) Decode(d *Decoder) error {
 	// Init the map
 	*a = make(ServiceAccountState, length)
 
+	var prevKey ServiceID
 	for i := uint64(0); i < length; i++ {
 		// Decode key (ServiceID)
 		var key ServiceID
 		if err = key.Decode(d); err != nil {
 			return err
 		}
+		// dictionary keys are strictly ascending
+		if i > 0 && key <= prevKey {
+			return errors.New("ServiceAccountState keys are not strictly ascending")
+		}
+		prevKey = key
 
 		// Decode value (ServiceAccount)
 		var value ServiceAccount
@@ -3384,11 +3425,18 @@ func (a *AccumulatedServiceOutput) Decode(d *Decoder) error {
 
 	// Initialize the map with the given length
 	*a = make(AccumulatedServiceOutput, length)
+	var prevKey AccumulatedServiceHash
 	for i := uint64(0); i < length; i++ {
 		var key AccumulatedServiceHash
 		if err = key.Decode(d); err != nil {
 			return err
 		}
+		// set elements are strictly ascending (service id, then hash)
+		if i > 0 && (key.ServiceID < prevKey.ServiceID ||
+			(key.ServiceID == prevKey.ServiceID && bytes.Compare(prevKey.Hash[:], key.Hash[:]) >= 0)) {
+			return errors.New("AccumulatedServiceOutput elements are not strictly ascending")
+		}
+		prevKey = key
 
 		// Put the key in the map
 		(*a)[key] = true // The value is always true in this context
